@@ -23,7 +23,7 @@ import (
 var jsonByteAlphabet = []string{"{", "}", "[", "]", `"`, ":", ",", "a", "1", "-", ".", "e", `\`, " ",
 	"null", "true", `"left"`, `"operator"`, `"right"`, `"min"`, `"max"`}
 
-var jsonValues = []string{`""`, `"a"`, `"*"`, `"a*"`, `"/r/"`, `"/"`, `"/abc/"`, `"1,2"`, `"a\u0000"`, `0`, `1`, `-1`, `1.5`, `1e400`, `true`, `null`,
+var jsonValues = []string{`"min"`, `"max"`, `"left"`, `"\"min"`, `"operator"`, `""`, `"a"`, `"*"`, `"a*"`, `"/r/"`, `"/"`, `"/abc/"`, `"1,2"`, `"a\u0000"`, `0`, `1`, `-1`, `1.5`, `1e400`, `true`, `null`,
 	`[]`, `["a"]`, `[1,"b"]`, `[[1]]`, `[{"left":"a","operator":"LITERAL"}]`, `{}`}
 
 var jsonOps = []string{"AND", "OR", "EQUALS", "LIKE", "NOT", "RANGE", "MUST", "MUST_NOT", "BOOST", "FUZZY", "LITERAL", "WILD", "REGEXP",
